@@ -122,6 +122,9 @@ def main(argv=None):
     by_name = {r.unit.name: r for r in results}
     violations, undecided, crashes, known_hits = [], [], [], []
     replay_dir = VERIF / 'replays' / prop
+    if replay_dir.exists() and not args.unit:
+        import shutil
+        shutil.rmtree(replay_dir, ignore_errors=True)     # replay files belong to one run
     obligations = 0
     discharged = 0
     for r in results:
